@@ -39,6 +39,8 @@ pub trait Conn {
     fn regulate(&self, p: &P) -> Result<Result<P, String>, String>;
     fn encode(&self, p: &P) -> Result<Vec<u8>, String>;
     fn size_of(&self, p: &P) -> Option<i64>;
+    /// bytes of the packets requested for sending since the last call, with their abstraction
+    fn take_wire(&mut self) -> Vec<(P, Vec<u8>)>;
     fn obs(&self) -> Value;
     fn dig(&self) -> Value;
     fn version(&self) -> String;
@@ -84,11 +86,12 @@ macro_rules! conn_impl {
         pub struct $name {
             pub c: GenericConnection<$Role, $T>,
             pub opts: Opts,
+            pub wire: std::cell::RefCell<Vec<(P, Vec<u8>)>>,
         }
 
         impl $name {
             pub fn new(ver: &str) -> Self {
-                $name { c: GenericConnection::<$Role, $T>::new(ver_of(ver)), opts: Opts::default() }
+                $name { c: GenericConnection::<$Role, $T>::new(ver_of(ver)), opts: Opts::default(), wire: Default::default() }
             }
             fn evs(&self, v: Vec<GenericEvent<$T>>) -> Vec<E> {
                 canon(
@@ -102,6 +105,7 @@ macro_rules! conn_impl {
                             GenericEvent::RequestSendPacket { packet, release_packet_id_if_send_error } => {
                                 let mut x = E::of("send");
                                 x.pkt = $m::abs(packet);
+                                self.wire.borrow_mut().push((x.pkt.clone(), packet.to_continuous_buffer()));
                                 x.rel = release_packet_id_if_send_error.map(|v| v as i64).unwrap_or(0);
                                 x
                             }
@@ -210,6 +214,7 @@ macro_rules! conn_impl {
                 }
             }
             fn size_of(&self, p: &P) -> Option<i64> { $m::build(p).ok().map(|k| k.size() as i64) }
+            fn take_wire(&mut self) -> Vec<(P, Vec<u8>)> { std::mem::take(&mut *self.wire.borrow_mut()) }
             fn obs(&self) -> Value {
                 let stored: Vec<P> = self.c.get_stored_packets().iter().map(|s| $m::abs_store(s)).collect();
                 let mut q: Vec<i64> = self.c.get_qos2_publish_handled().iter().map(|v| *v as i64).collect();
